@@ -31,6 +31,7 @@ type PropMeta struct {
 	ValidateN   int               `json:"validate_n"`
 	AllocBound  int               `json:"alloc_bound"`
 	WorkBound   int               `json:"work_bound"`
+	MaxSteps    int64             `json:"max_steps"`
 	AllocEventIsPanic bool        `json:"alloc_event_is_panic"`
 	NativeRace  bool              `json:"native_race"` // build the native replay binary with the race detector
 	SolverArgs  map[string][]string `json:"solver_args"`
@@ -169,7 +170,7 @@ func main() {
 		}
 	}
 	cfg := gosym.RunConfig{Workers: *workers, SolverKind: *solver, TimeoutMs: tmo, MaxPathsPerHarness: meta.MaxPaths,
-		Tier: *tier, InitPkgs: hp, KnownIDs: knownIDs, SolverArgs: meta.SolverArgs, MaxDecisions: meta.MaxDecisions, Verbose: *verbose,
+		Tier: *tier, InitPkgs: hp, KnownIDs: knownIDs, SolverArgs: meta.SolverArgs, MaxDecisions: meta.MaxDecisions, MaxSteps: meta.MaxSteps, Verbose: *verbose,
 		Configure: func(in *gosym.Interp) {
 			in.AllocBound = meta.AllocBound
 			in.WorkBound = meta.WorkBound
